@@ -19,6 +19,7 @@ import (
 	"fmt"
 	"github.com/echovault/sugardb/internal"
 	"github.com/echovault/sugardb/internal/constants"
+	"maps"
 	"math/rand"
 	"slices"
 	"strconv"
@@ -476,6 +477,8 @@ func handleHINCRBY(params internal.HandlerFuncParams) ([]byte, error) {
 	if !ok {
 		return nil, fmt.Errorf("value at %s is not a hash", key)
 	}
+	// Work on a copy: the stored hash must not change if the write below is refused.
+	hash = maps.Clone(hash)
 
 	if hash[field] == nil {
 		hash[field] = 0
@@ -592,6 +595,8 @@ func handleHDEL(params internal.HandlerFuncParams) ([]byte, error) {
 	if !ok {
 		return nil, fmt.Errorf("value at %s is not a hash", key)
 	}
+	// Work on a copy: the stored hash must not change if the write below is refused.
+	hash = maps.Clone(hash)
 
 	count := 0
 
